@@ -129,7 +129,7 @@ class Exec:
             if v[1] in self.word_args:
                 ty = self.f.params[v[1]]["ty"]
                 return gf2.sym_word(("argw", v[1]), int(ty[1:]))
-            return p.env.get(v, Lf.s(("arg", v[1])))
+            return p.env.get(v, Lf.s(argsym(self.f, v[1])))
         if k == "i":
             if v in p.env:
                 return p.env[v]
@@ -142,7 +142,9 @@ class Exec:
             return Lf.s(("glob", repr(v)))
         return Lf.s(("x", repr(v)))
 
-    def word(self, v, w):
+    def word(self, v, w, p=None):
+        if p is not None and not is_word(v):
+            v = self.subst(p, v)
         if is_word(v):
             if len(v) == w:
                 return v
@@ -337,10 +339,14 @@ class Exec:
         if isinstance(c, tuple) and c and c[0] == "icmp":
             _, pred, a, b = c
             if not is_word(a) and not is_word(b):
+                sa, sb = self.subst(p, a), self.subst(p, b)
+                ka, kb = sa.const(), sb.const()
+                if ka is not None and kb is not None:
+                    return ir.eval_icmp(pred, ka & ((1 << 64) - 1), kb & ((1 << 64) - 1), 64)
                 d = self.subst(p, a.add(b, -1))
                 k = d.const()
-                if k is not None:
-                    return ir.eval_icmp(pred, k & ((1 << 64) - 1), 0, 64)
+                if k is not None and pred in ("eq", "ne"):
+                    return (k == 0) == (pred == "eq")
                 # bounds from earlier conditions on the same form
                 r = self._implied(p, pred, d)
                 if r is not None:
@@ -520,7 +526,7 @@ class Exec:
         if op in ("xor", "and", "or"):
             a, b = self.val(p, o[0]), self.val(p, o[1])
             w = I.bits
-            a, b = self.word(a, w), self.word(b, w)
+            a, b = self.word(a, w, p), self.word(b, w, p)
             p.env[k] = {"xor": gf2.wxor, "and": gf2.wand, "or": gf2.wor}[op](a, b)
             return
         if op in ("shl", "lshr", "ashr"):
@@ -621,6 +627,11 @@ class Exec:
                 p.env[k] = Lf.s(("ret", I.id))
             return
         raise Broken("irx: unsupported instruction %s in %s (%s)" % (op, f.name, I.where))
+
+
+def argsym(f, i):
+    """symbol of parameter i: pointer parameters are objects ("arg", i), integers are ("n", i)"""
+    return ("arg", i) if f.params[i]["ty"].endswith("*") else ("n", i)
 
 
 def _sext(v, bits):
